@@ -143,3 +143,15 @@ Definition udp_outcome (std : bool) (msg_id : N) (qname : list byte) (qtype qcla
 Definition client_query (std : bool) (strategy msg_id : N) (qname : list byte) (qtype qclass buf_len : N)
            (ds : list (list byte)) (segs : list (list byte)) : list event * res (list byte) :=
   query_raw_impl std strategy (udp_outcome std msg_id qname qtype qclass buf_len ds) (tcp_exchange std segs buf_len).
+
+(* ---------------------------------------------------------------- which clock each deadline uses *)
+(* [start]: when the call began; [query_start]: when the current UDP transmission was sent;
+   [now]: when the timeout is armed.  The clock each function reads is a translated leaf. *)
+Definition lifetime_left_at (now start query_start lifetime : N) : res N :=
+  lifetime_left (now - std_clock_lifetime start query_start) lifetime.
+Definition query_left_at (now start query_start lifetime : N) (query_timeout : option N) : res N :=
+  query_left (now - std_clock_lifetime start query_start) lifetime query_timeout (now - std_clock_attempt start query_start).
+Definition tcp_prefix_timeout_at (now start query_start lifetime : N) : res N :=
+  tcp_read_timeout (now - std_clock_tcp_prefix start query_start) lifetime.
+Definition tcp_body_timeout_at (now start query_start lifetime : N) : res N :=
+  tcp_read_timeout (now - std_clock_tcp_body start query_start) lifetime.
